@@ -35,7 +35,7 @@ def oracle(c, real, model):
 
 def pid_lists(rng, c, pmt_pid):
     have = [pid for _, pid, _ in c["sec"]["streams"]]
-    # 8 and 9 are never requested: bin/check treats a reply containing "[8]" / "[9]" (here: a one-element missing-PID list) as a protocol error
+    # 8 and 9 are never requested: bin/check used to treat a reply containing "[8]" / "[9]" (now the markers are [-8888] / [-9999]), hence historically (here: a one-element missing-PID list) as a protocol error
     absent = [p for p in (5, 17, 8000, 8191, 70000, rng.randrange(10, 8192)) if p not in have and p != pmt_pid]
     out = [("empty", []), ("all", list(have)), ("all-reversed", list(reversed(have)))]
     if have:
